@@ -289,7 +289,11 @@ impl Handler<BiStreamManageCmd> for BiStreamManage {
                 for item in &client_id_set {
                     if let Some(item) = self.conn_cache.get(item) {
                         // 默认命名空间有两个值，需要把通知的命令空间值调整为监听的值，以兼容不同版本的客户端
-                        if item.namespace.is_default() && item.namespace.to_str() != tenant.as_str()
+                        // (only the spelling of the DEFAULT namespace is adjusted: a key of another namespace keeps its
+                        // tenant, otherwise the client is told about a key it does not listen to)
+                        if item.namespace.is_default()
+                            && NamespaceType::get_namespace_type(tenant.as_str()).is_default()
+                            && item.namespace.to_str() != tenant.as_str()
                         {
                             if other_default_payload.is_none() {
                                 request.tenant = Arc::new(item.namespace.to_str().to_string());
